@@ -1,15 +1,15 @@
 SPECIFICATION Spec
 CONSTANTS
-  NIds = 3
-  MaxOps = 9
-  GoneTail = 8
-  SymBreak = FALSE
+  NIds = 2
+  MaxOps = 4
+  GoneTail = 1
+  SymBreak = TRUE
   SeekOnGet = TRUE
   ReadThenUnlink = TRUE
   UnlinkOnDrop = TRUE
   CreateErrIsExist = TRUE
-  DirtyAfterWrite = TRUE
-  MaxFail = 2
+  DirtyAfterWrite = FALSE
+  MaxFail = 1
 INVARIANTS TypeOK Refines DirIsMap NothingLeftBehind OccupiedIffInserted ReadsReturnStored GoneIsError
-VIEW ViewNoHist
+
 CHECK_DEADLOCK FALSE
